@@ -363,6 +363,9 @@ class ObjModels:
 			if c is not None:
 				# the result of the closure must be wrapped in Some: run it to completion here
 				return [(s2, some(r)) for s2, r in ip.run_sub(st, c.fn, c.args)]
+			if isinstance(a[1], mirx.FnItem) and re.match(r"^(\w+::)*[A-Z]\w*::[A-Z]\w*$", str(a[1])):
+				# an enum constructor passed as a function (FragmentRef::Value ...)
+				return [(st, some(ip.make_agg(str(a[1]), [x])))]
 			raise MirError("Option::map with %r" % (a[1],))
 
 		def opt_and_then(ip, st, a):
@@ -738,10 +741,101 @@ class ObjModels:
 							work.append((s3, acc + (q.fields[0],)))
 			return out
 
+		def slice_next_back(ip, st, a):
+			it = self.rd(ip, st, a[0])
+			ref, lo = it.fields[0], it.fields[1]
+			v = deref_val(ip, st, ref)
+			hi = it.fields[2] if len(it.fields) > 2 else len(v[1])
+			if hi <= lo:
+				return NONE
+			self.wr(ip, st, a[0], Agg("SliceIter", None, (ref, lo, hi - 1)))
+			b = ref
+			while isinstance(self.rd(ip, st, b), Ref):
+				b = self.rd(ip, st, b)
+			return some(Ref(b[0], b[1], b[2] + (hi - 1,)))
+
+		def sv_pop(ip, st, a):
+			v = self.rd(ip, st, a[0])
+			if not v[1]:
+				return NONE
+			self.wr(ip, st, a[0], ("vec", tuple(v[1][:-1])))
+			return some(v[1][-1])
+
+		def sv_extend_rev(ip, st, a):
+			"""`stack.extend(iter.rev())`: std's contract — the items of `next_back` until None, pushed in
+			that order; `next_back` is the crate's MIR"""
+			rev = a[1]
+			if isinstance(rev, Agg) and rev.ty == "Rev" and rev.fields[0].ty == "SubFragments":
+				inner, which = rev.fields[0], "<SubFragments as DoubleEndedIterator>::next_back"
+			elif isinstance(rev, Agg) and rev.ty == "SubFragments":
+				inner, which = rev, "<SubFragments as Iterator>::next"
+			else:
+				raise MirError("SmallVec::extend with %r" % (rev,))
+			fi = len(st.frames) - 1
+			st.frames[fi].locals[970 + fi] = inner
+			fn = prog.resolve(which, None, [])
+			if fn is None:
+				raise MirError("%s not found in the MIR dump" % which)
+			out = []
+			work = [st]
+			while work:
+				s_ = work.pop()
+				for s2, r in ip.run_sub(s_, fn, [Ref(fi, 970 + fi, ())]):
+					if r.variant == "None":
+						out.append((s2, UNIT))
+					else:
+						v = self.rd(ip, s2, a[0])
+						self.wr(ip, s2, a[0], ("vec", tuple(v[1]) + (r.fields[0],)))
+						work.append(s2)
+			return out
+
+		def opt_or_else(ip, st, a):
+			if a[0].variant == "Some":
+				return [(st, a[0])]
+			c = ip.fn_value_call(a[1], [])
+			if c is None:
+				raise MirError("Option::or_else with %r" % (a[1],))
+			return [(st, c)]
+
+		def filter_count(ip, st, a):
+			"""`iter.filter(p).count()`: std's contract — the number of items for which the predicate
+			holds; the iterator's `next` and the predicate are the crate's MIR"""
+			inner, clo = a[0].fields
+			fi = len(st.frames) - 1
+			st.frames[fi].locals[910 + fi] = inner
+			c = ip.fn_value_call(clo, [None])
+			fn = prog.resolve("<%s as Iterator>::next" % inner.ty, None, [])
+			if c is None or fn is None:
+				raise MirError("Filter::count over %r with %r" % (inner.ty, clo))
+			st.frames[fi].locals[940 + fi] = c.args[0]
+			out = []
+			work = [(st, 0)]
+			while work:
+				s_, n = work.pop()
+				for s2, r in ip.run_sub(s_, fn, [Ref(fi, 910 + fi, ())]):
+					if r.variant == "None":
+						out.append((s2, n))
+						continue
+					s2.frames[fi].locals[980 + fi] = r.fields[0]
+					for s3, keep in ip.run_sub(s2, c.fn, [Ref(fi, 940 + fi, ()), Ref(fi, 980 + fi, ())]):
+						work.append((s3, n + (1 if keep else 0)))
+			return out
+
 		mk_map = one(lambda ip, st, a: Agg("MapIter", None, (a[0], a[1])))
 		mk_enum = one(lambda ip, st, a: Agg("Enumerate", None, (a[0], 0)))
 
 		base = {
+			"<std::slice::Iter as DoubleEndedIterator>::next_back": one(slice_next_back),
+			"<&[Value] as IntoIterator>::into_iter": one(slice_iter),
+			"SmallVec::new": one(lambda ip, st, a: ("vec", ())),
+			"SmallVec::push": one(vec_push),
+			"SmallVec::pop": one(sv_pop),
+			"<SmallVec as Extend>::extend": sv_extend_rev,
+			"<SubFragments as IntoIterator>::into_iter": one(lambda ip, st, a: a[0]),
+			"<SubFragments as Iterator>::rev": one(lambda ip, st, a: Agg("Rev", None, (a[0],))),
+			"Option::or_else": opt_or_else,
+			"<Traverse as Iterator>::filter": one(lambda ip, st, a: Agg("Filter", None, (a[0], a[1]))),
+			"<Filter as Iterator>::count": filter_count,
 			"<array::IterMapped as Iterator>::map": mk_map,
 			"<std::slice::Iter as Iterator>::map": mk_map,
 			"<Enumerate as Iterator>::map": mk_map,
@@ -945,6 +1039,16 @@ class ObjProgram:
 			"<object::IterMapped as Iterator>::next": r"^object::<impl at src/object/mod\.rs:[0-9: ]+>::next\(_1: &mut object::IterMapped<",
 			"<IterMapped as Iterator>::next": r"^object::<impl at src/object/mod\.rs:[0-9: ]+>::next\(_1: &mut (object::)?IterMapped<",
 			"Value::kind": r"^<impl at src/lib\.rs:[0-9: ]+>::kind\(_1: &Value\) -> Kind",
+			"Value::get_fragment": r"^<impl at src/lib\.rs:[0-9: ]+>::get_fragment\(_1: &Value, _2: usize\)",
+			"Value::traverse": r"^<impl at src/lib\.rs:[0-9: ]+>::traverse\(_1: &Value\)",
+			"Value::volume": r"^<impl at src/lib\.rs:[0-9: ]+>::volume\(_1: &Value\)",
+			"get_array_fragment": r"^get_array_fragment\(_1: &\[Value\], _2: usize\)",
+			"object::Entry::get_fragment": r"^object::<impl at src/object/mod\.rs:[0-9: ]+>::get_fragment\(_1: &object::Entry<",
+			"FragmentRef::sub_fragments": r"^<impl at src/lib\.rs:[0-9: ]+>::sub_fragments\(_1: &FragmentRef<",
+			"FragmentRef::is_value": r"^<impl at src/lib\.rs:[0-9: ]+>::is_value\(_1: &FragmentRef<",
+			"<SubFragments as DoubleEndedIterator>::next_back": r"^<impl at src/lib\.rs:[0-9: ]+>::next_back\(_1: &mut SubFragments<",
+			"<Traverse as Iterator>::next": r"^<impl at src/lib\.rs:[0-9: ]+>::next\(_1: &mut Traverse<",
+			"<SubFragments as Iterator>::next": r"^<impl at src/lib\.rs:[0-9: ]+>::next\(_1: &mut SubFragments<",
 		}
 		if callee in pats:
 			for f in self.fns:
@@ -968,7 +1072,7 @@ class ObjProgram:
 def enum_variants(repo, fname, name):
 	t = open(os.path.join(repo, fname)).read()
 	t = re.sub(r"//[^\n]*", "", t)
-	m = re.search(r"\benum\s+%s\s*\{" % name, t)
+	m = re.search(r"\benum\s+%s\s*(?:<[^>{]*>)?\s*\{" % name, t)
 	if not m:
 		raise MirError("enum %s not found in %s" % (name, fname))
 	k = mirx.match_close(t, m.end() - 1)
@@ -1647,6 +1751,168 @@ class Explorer:
 					self.timed_out = True
 					return
 
+	def explore_fragments(self, level, budget):
+		"""C11: fragment lookup by index and the traversal. For every value of the stated shapes (nested
+		arrays and objects; every scalar and key carries a unique tag so that a fragment is identified
+		by its content), `Value::get_fragment(index)` is run on the MIR with a SYMBOLIC index (an
+		unbounded non-negative integer): every branch on the index (`index == 0`, the `match index`
+		of Entry::get_fragment) forks under the path condition, decided by z3. Per path: Ok(fragment)
+		must be fragment number c of the pre-order traversal with the path condition implying
+		index == c; Err(e) must come with the path condition implying index >= total and
+		e == index - total (the remaining distance); the paths must cover every index >= 0; no
+		subtraction on the index may underflow. Besides (no symbolic input: plain interpretation of the
+		MIR), `Value::traverse()` must yield (i, fragment i) for i = 0.. in that same pre-order and then
+		None, and `Value::volume()` the number of value fragments."""
+		t0 = time.time()
+		prog = self.prog
+		need = {}
+		for k in ("Value::get_fragment", "Value::traverse", "Value::volume", "<Traverse as Iterator>::next"):
+			need[k] = prog.resolve(k, None, [])
+			if need[k] is None:
+				raise MirError("%s not found in the MIR dump" % k)
+		self.ip.enums["Value"] = enum_variants(self.repo, "src/lib.rs", "Value")
+		self.ip.enums["FragmentRef"] = enum_variants(self.repo, "src/lib.rs", "FragmentRef")
+		self.ip.enums["SubFragments"] = enum_variants(self.repo, "src/lib.rs", "SubFragments")
+		self.ip.struct_fields["Traverse"] = struct_fields(self.repo, "src/lib.rs").get("Traverse")
+		if self.ip.struct_fields["Traverse"] != ["offset", "stack"]:
+			raise MirError("struct Traverse: unexpected field list")
+		index = z3.Int("index")
+		self.pairs = 0
+
+		def sat(cs):
+			sv = z3.Solver()
+			sv.add(index >= 0)
+			sv.add(*cs)
+			self.keys.queries += 1
+			return sv.check() == z3.sat
+
+		def switch(ip, st, v, targets, other):
+			pc = st.aux.get("ipc", ())
+			out = []
+			neg = []
+			for a_, bb in targets:
+				c = (z3.Not(v) if a_ == 0 else v) if z3.is_bool(v) else (v == a_)
+				if sat(pc + (c,)):
+					s2 = st.fork()
+					s2.aux["ipc"] = pc + (c,)
+					out.append((s2, bb))
+				neg.append(z3.Not(c))
+			if other is not None and sat(pc + tuple(neg)):
+				s2 = st.fork()
+				s2.aux["ipc"] = pc + tuple(neg)
+				out.append((s2, other))
+			return out
+
+		def binop(ip, st, op, a_, b_):
+			if op == "Sub" and (z3.is_expr(a_) or z3.is_expr(b_)):
+				# usize subtraction: must not wrap under the path condition
+				if sat(st.aux.get("ipc", ()) + (a_ < b_,)):
+					st.aux["underflow"] = "%s - %s" % (a_, b_)
+			return None
+
+		self.ip.models["@switch"] = switch
+		self.ip.models["@binop"] = binop
+		tag = {"n": 0}
+
+		def build(v, path):
+			"""(Agg value, [pre-order fragments as (kind, location path under the root local)])"""
+			if v == "s":
+				tag["n"] += 1
+				return Agg("Value", "Number", (("num", tag["n"]),)), [("Value", path)]
+			if v[0] == "arr":
+				items = [build(c, path + (0, i)) for i, c in enumerate(v[1])]
+				return Agg("Value", "Array", (("vec", tuple(i[0] for i in items)),)), [("Value", path)] + [f for i in items for f in i[1]]
+			ents = []
+			frs = []
+			for i, c in enumerate(v[1]):
+				tag["n"] += 1
+				ep = path + (0, 0, i)
+				val, sub = build(c, ep + (1,))
+				ents.append(Agg("Entry", None, (("keytag", tag["n"]), val)))
+				frs += [("Entry", ep), ("Key", ep + (0,))] + sub
+			return Agg("Value", "Object", (Agg("Object", None, (("vec", tuple(ents)), ("imap", ()))),)), [("Value", path)] + frs
+
+		def frag_of(s_, fr):
+			r = fr.fields[0]
+			while isinstance(r, Ref) and isinstance(self.models.rd(self.ip, s_, r), Ref):
+				r = self.models.rd(self.ip, s_, r)
+			if not (isinstance(r, Ref) and r[0] == 0 and r[1] == 1):
+				return (fr.variant, ("?", repr(r)))
+			return (fr.variant, tuple(r[2]))
+
+		for shape in frag_shapes(level):
+			tag["n"] = 0
+			val, F = build(shape, ())
+			total = len(F)
+			hist = [["get_fragment", [frag_json(shape)]]]
+			# ---- lookup by a symbolic index
+			st = State()
+			st.frames.append(Frame(None, {1: val}))
+			st.aux["nk"] = 0
+			st.aux["ipc"] = ()
+			pcs = []
+			for s2, r in self.call(st, need["Value::get_fragment"], [Ref(0, 1, ()), index]):
+				self.pairs += 1
+				self.paths += 1
+				pc = s2.aux.get("ipc", ())
+				pcs.append(z3.And(*pc) if pc else z3.BoolVal(True))
+				if s2.aux.get("underflow"):
+					self.violation(s2, hist, "C11:fragment-index-arithmetic-never-wraps", "possible underflow of %s" % s2.aux["underflow"])
+					continue
+				if isinstance(r, Agg) and r.variant == "Ok":
+					got = frag_of(s2, r.fields[0])
+					cs = [c for c in range(total) if F[c] == got]
+					if len(cs) != 1 or sat(pc + (index != cs[0],)):
+						m_ = z3.Solver()
+						m_.add(index >= 0, *pc)
+						m_.check()
+						self.violation(s2, hist + [["index", str(m_.model()[index])]], "C11:fragment-lookup-returns-the-ith-fragment-of-the-traversal", "returned %r, which is fragment %s of the traversal" % (got, cs))
+				elif isinstance(r, Agg) and r.variant == "Err":
+					e = r.fields[0]
+					if sat(pc + (z3.Or(index < total, (e if z3.is_expr(e) else z3.IntVal(e)) != index - total),)):
+						m_ = z3.Solver()
+						m_.add(index >= 0, *pc)
+						m_.add(z3.Or(index < total, (e if z3.is_expr(e) else z3.IntVal(e)) != index - total))
+						m_.check()
+						self.violation(s2, hist + [["index", str(m_.model()[index])]], "C11:index-past-the-end-rejected-with-the-remaining-distance", "returned Err(%s) on a value of %d fragments" % (e, total))
+				else:
+					self.violation(s2, hist, "C11:fragment-lookup-returns-the-ith-fragment-of-the-traversal", "returned %r" % (r,))
+			if sat((z3.Not(z3.Or(*pcs)),)):
+				raise MirError("fragment lookup: the explored paths do not cover every index (shape %s)" % frag_json(shape))
+			# ---- the traversal and the volume (concrete interpretation)
+			st = State()
+			st.frames.append(Frame(None, {1: val}))
+			st.aux["nk"] = 0
+			res = self.call(st, need["Value::traverse"], [Ref(0, 1, ())])
+			if len(res) != 1:
+				raise MirError("traverse forked")
+			s2, it = res[0]
+			s2.frames[0].locals[3] = it
+			for i in range(total + 1):
+				res = self.call(s2, need["<Traverse as Iterator>::next"], [Ref(0, 3, ())])
+				if len(res) != 1:
+					raise MirError("Traverse::next forked")
+				s2, r = res[0]
+				self.pairs += 1
+				if i == total:
+					if r.variant != "None":
+						self.violation(s2, [["traverse", [frag_json(shape)]]], "C11:traversal-is-the-pre-order-of-the-fragments", "item %d past the end: %r" % (i, r))
+					break
+				if r.variant != "Some" or r.fields[0].fields[0] != i or frag_of(s2, r.fields[0].fields[1]) != F[i]:
+					self.violation(s2, [["traverse", [frag_json(shape)]]], "C11:traversal-is-the-pre-order-of-the-fragments", "item %d: %r" % (i, r))
+					break
+			st = State()
+			st.frames.append(Frame(None, {1: val}))
+			st.aux["nk"] = 0
+			res = self.call(st, need["Value::volume"], [Ref(0, 1, ())])
+			nvals = sum(1 for k, _ in F if k == "Value")
+			if len(res) != 1 or res[0][1] != nvals:
+				self.violation(res[0][0], [["volume", [frag_json(shape)]]], "C11:volume-counts-the-value-fragments", "volume %r, %d values" % (res[0][1] if res else None, nvals))
+			self.pairs += 1
+			if budget and time.time() - t0 > budget:
+				self.timed_out = True
+				return
+
 	def explore(self, depth, budget):
 		t0 = time.time()
 		st = State()
@@ -1837,6 +2103,85 @@ def replay_mapped(native, model, qkey, keyvals):
 	return dict(object=spec, query=q, got=got, want=want, reproduced=(got != want))
 
 
+def frag_shapes(level):
+	"""level 1: nesting depth <= 2, containers of <= 2 items/entries (115 values); level 2: depth <= 2
+	with <= 3 items/entries plus depth <= 3 chains (<= 1 item/entry per container)"""
+	def gen(depth, arity):
+		if depth == 0:
+			return ["s"]
+		sub = gen(depth - 1, arity)
+		out = ["s"]
+		for kind in ("arr", "obj"):
+			for n in range(arity + 1):
+				out += [(kind, x) for x in itertools.product(sub, repeat=n)]
+		return out
+	if level <= 1:
+		return gen(2, 2)
+	return gen(2, 3) + [x for x in gen(3, 1) if x not in ("s",)]
+
+
+def frag_json(v, ctr=None):
+	"""compact JSON text of a shape; scalars are the numbers 0, 1, .. and keys "k0", "k1", .. in
+	document order, so that every fragment has a distinct rendering (up to empty containers)"""
+	ctr = ctr if ctr is not None else {"s": 0, "k": 0}
+	if v == "s":
+		ctr["s"] += 1
+		return str(ctr["s"] - 1)
+	if v[0] == "arr":
+		return "[" + ",".join(frag_json(c, ctr) for c in v[1]) + "]"
+	parts = []
+	for c in v[1]:
+		ctr["k"] += 1
+		parts.append('"k%d":' % (ctr["k"] - 1) + frag_json(c, ctr))
+	return "{" + ",".join(parts) + "}"
+
+
+def replay_fragments(native, text, index=None):
+	"""get_fragment(i) for i = 0..total+2 (and `index`), traverse() and volume() of the REAL parsed
+	value, against the pre-order definition computed here from the text (a fragment is rendered as
+	its kind and its compact text / key)"""
+	import subprocess
+
+	p = subprocess.run([native, "frag", text] + ([str(index)] if index is not None else []), stdout=subprocess.PIPE, stderr=subprocess.DEVNULL, timeout=60)
+	got = p.stdout.decode(errors="replace").strip()
+
+	def walk(t, i, out):
+		start = i
+		slot = len(out)
+		out.append(None)
+		if t[i] == "[":
+			i += 1
+			while t[i] != "]":
+				if t[i] == ",":
+					i += 1
+				i = walk(t, i, out)
+			i += 1
+		elif t[i] == "{":
+			i += 1
+			while t[i] != "}":
+				if t[i] == ",":
+					i += 1
+				j = t.index(":", i)
+				key = t[i + 1 : j - 1]
+				out.append("E" + key)
+				out.append("K" + key)
+				i = walk(t, j + 1, out)
+			i += 1
+		else:
+			while i < len(t) and t[i] not in ",]}":
+				i += 1
+		out[slot] = "V" + t[start:i]
+		return i
+
+	kinds = []
+	walk(text, 0, kinds)
+	total = len(kinds)
+	idx = list(range(total + 3)) + ([index] if index is not None else [])
+	want = "G " + " ".join(("%d=%s" % (i, kinds[i])) if i < total else ("%d=Err%d" % (i, i - total)) for i in idx)
+	want += " T " + " ".join("%d=%s" % (i, k) for i, k in enumerate(kinds)) + " N %d" % sum(1 for k in kinds if k[0] == "V")
+	return dict(value=text, index=index, got=got, want=want, reproduced=(got != want))
+
+
 def CONV_KIND(v):
 	return "Array" if isinstance(v, tuple) else {"t": "Boolean", "f": "Boolean", "n": "Null"}[v]
 
@@ -1929,6 +2274,7 @@ def main():
 	ap.add_argument("--depth", type=int, default=3)
 	ap.add_argument("--unordered", type=int, default=-1, help="C15 mode: pairs of objects of <= this many entries")
 	ap.add_argument("--mapped", type=int, default=-1, help="C11 mode: mapped lookups on objects of <= this many entries")
+	ap.add_argument("--fragments", type=int, default=-1, help="C11 mode: fragment lookup with a symbolic index / traversal / volume on nested values (level 1 or 2)")
 	ap.add_argument("--convert", type=int, default=-1, help="C11 mode: Vec<bool>::try_from_json_at on arrays of <= this many items")
 	ap.add_argument("--budget", type=float, default=0)
 	ap.add_argument("--mir", default=None)
@@ -1941,6 +2287,32 @@ def main():
 		out["mir_dump_s"] = round(dt, 1)
 		ex = Explorer(a.repo, text)
 		out["functions_encoded"] = ex.prog.encoded()
+		if a.fragments >= 0:
+			ex.with_content = False
+			ex.explore_fragments(a.fragments, a.budget)
+			native = drvcheck.build_native(a.repo, a.build)
+			bad = []
+			nval = 0
+			for shape in frag_shapes(1):
+				r = replay_fragments(native, frag_json(shape))
+				nval += 1
+				if r["reproduced"]:
+					bad.append(r)
+			out["translator_validation"] = dict(values=nval, disagreements=bad[:3])
+			for v in ex.violations:
+				idx = [h[1] for h in v["history"] if h[0] == "index"]
+				v["native"] = replay_fragments(native, v["history"][0][1][0], int(idx[0]) if idx and str(idx[0]).isdigit() else None)
+			if bad and not ex.violations:
+				raise MirError("translator validation failed: the real value deviates from the pre-order definition on a value the interpreter passes: %s" % json.dumps(bad[0]))
+			out.update(level=a.fragments, pairs=ex.pairs, histories=ex.pairs, operations_run=ex.ops_run, mir_steps=ex.ip.stats["steps"], solver_queries=ex.keys.queries,
+			           solver_time_s=round(ex.keys.solver_time, 2), key_variables=len(ex.keys.vars), wall_s=round(time.time() - t0, 1), timed_out=ex.timed_out, violations=ex.violations)
+			out["ok"] = True
+			log("fragment lookup / traversal / volume, level %d: %d paths and iterator steps checked, %d solver queries, %.1fs, %d violation(s)" % (a.fragments, ex.pairs, ex.keys.queries, time.time() - t0, len(ex.violations)))
+			if a.out:
+				json.dump(out, open(a.out, "w"), indent=1, default=str)
+			else:
+				print(json.dumps(out, indent=1, default=str)[:4000])
+			return 0
 		if a.convert >= 0:
 			ex.with_content = False
 			ex.explore_convert(a.convert, a.budget)
